@@ -146,6 +146,7 @@ def trace_bounded_instance():
         z = y / np.linalg.norm(y, axis=-1, keepdims=True) if cplx else y
         rep = (lambda a: a) if sal is None else None
         lls, own, guard_ok = [], [], []
+        fixed_cov = {}
         model = None
         for i in range(1, n_it + 1):
             if which.startswith('cacgmm'):
@@ -166,8 +167,18 @@ def trace_bounded_instance():
                 own.append(None)
             elif which.startswith('gmm'):
                 ct = which[4:]
+                fixed = None
+                if inp['seed'] % 4 == 1:
+                    # covariances given by the caller (the weighted mean is then the exact M-step for the means): one fixed
+                    # positive definite matrix / variance vector / variance per class, shaped like the fitted ones
+                    if fixed_cov.get('ct') != ct:
+                        Af = rng.normal(size=(F, K, D, D))
+                        fixed_cov.update(ct=ct, full=Af @ np.swapaxes(Af, -1, -2) + 0.5 * np.eye(D), diagonal=rng.uniform(0.5, 2.0, size=(F, K, D)),
+                                         spherical=rng.uniform(0.5, 2.0, size=(F, K)))
+                    fixed = fixed_cov[ct]
                 try:
-                    model = GMMTrainer().fit(y, initialization=init, iterations=i, saliency=sal, weight_constant_axis=wca, covariance_type=ct)
+                    model = GMMTrainer().fit(y, initialization=init, iterations=i, saliency=sal, weight_constant_axis=wca, covariance_type=ct,
+                                             fixed_covariance=fixed)
                 except ValueError as e:
                     # a component collapsed: the Gaussian constructor refuses a covariance that is not positive definite
                     # (documented behaviour, C09); the trace ends here and its prefix is still checked
